@@ -39,6 +39,15 @@ def envInsert (env : List Frame) (k : String) (v : Value) : List Frame :=
   | [] => [[(k, v)]]
   | f :: rest => insertAL k v f :: rest
 
+/-- the immutability check of an assignment: inside a function call (`call_depth > 0`)
+    only the innermost frame counts (`contains_key_local`), at top level the whole chain -/
+def alreadyDefined (depth : Nat) (env : List Frame) (k : String) : Bool :=
+  if depth > 0 then
+    match env with
+    | [] => false
+    | f :: _ => (lookupAL k f).isSome
+  else envContains env k
+
 def nameOf (names : List (Nat × String)) (id : Nat) : Option String :=
   (names.find? (fun p => p.1 == id)).map (·.2)
 
@@ -300,18 +309,22 @@ def eval (ops : NumOps) : Nat → Nat → Expr → ES → R Value
        | (.panic p, s1) => (.panic p, s1)
        | (.fuel, s1) => (.fuel, s1))
     | .lambda args body =>
+      if args.any (fun a => a.name == "inputs") then (.err .keyword, s) else
       let vars := freeVars (args.map LArg.name) body
       let scope := captureScope s.env vars
       (.ok (.lambda s.nextId args body scope), { s with nextId := s.nextId + 1 })
     | .assign n v =>
       if isBuiltinIdent n then (.err .builtinName, s)
       else if Gen.assignKeywords.contains n then (.err .keyword, s)
-      else if envContains s.env n then (.err .alreadyDefined, s)
+      else if alreadyDefined depth s.env n then (.err .alreadyDefined, s)
       else
         (match eval ops fuel depth v s with
          | (.ok val, s1) =>
-           let s2 := setNameIfLambda s1 n val
-           (.ok val, { s2 with env := envInsert s2.env n val })
+           -- the right-hand side may itself have bound `n`: checked again before inserting
+           if alreadyDefined depth s1.env n then (.err .alreadyDefined, s1)
+           else
+             let s2 := setNameIfLambda s1 n val
+             (.ok val, { s2 with env := envInsert s2.env n val })
          | r => r)
     | .output inner => eval ops fuel depth inner s
     | .cond c t el =>
@@ -603,7 +616,10 @@ def callHof (ops : NumOps) : Nat → String → List Value → Nat → ES → R 
             if !f.isCallable then (.ok (.list l), s)
             else
               let (keyed, s1) := keyCalls ops fuel f l (depth + 1) s
-              (.ok (.list ((mergeSortBy sortByLt keyed.length keyed).map (·.1))), s1)
+              -- model artefact: running out of fuel inside a key call is not an error the
+              -- real code swallows, so it is propagated
+              if keyed.any (fun kr => match kr.2 with | .fuel => true | _ => false) then (.fuel, s1)
+              else (.ok (.list ((mergeSortBy sortByLt keyed.length keyed).map (·.1))), s1)
           | _ => (.err .type_, s))
        | _ =>
          (match lv with
